@@ -39,6 +39,9 @@ NAV = {
 }
 
 
+# the action homes in which self names an instance (of class A)
+SELF_HOMES = ('op', 'derived', 'state', 'transition')
+
 # every keyword the grammar accepts where it says `identifier` (kw_as_identifier_1 .. 4), capitalised
 KWIDS = ['Across', 'Any', 'Assign', 'Assigner', 'Break', 'By', 'Class', 'Continue', 'Control', 'Create', 'Creator', 'Delete', 'Each',
          'Event', 'For', 'From', 'Generate', 'In', 'Instances', 'Instance', 'Many', 'Object', 'One', 'Related', 'Relate', 'Select',
@@ -449,13 +452,13 @@ class Gen(object):
         la = self.live_insts('A')
         if la:
             kinds += ['instop', 'instop_value']
-        if self.home in ('op', 'derived', 'state'):
+        if self.home in SELF_HOMES:
             kinds += ['self_attr', 'self_read', 'self_op', 'self_relate', 'self_relate', 'self_relate', 'self_select']
         if getattr(self, 'events', False):
             kinds += ['event'] * 5
         if getattr(self, 'arrays', False):
             # elements of an array-valued attribute (Items of A) and of an array-valued parameter / event data item (vec)
-            if la or self.home in ('op', 'derived', 'state'):
+            if la or self.home in SELF_HOMES:
                 kinds += ['attr_array'] * 3
             if self.home != 'derived':
                 kinds += ['param_array'] * 2
@@ -481,7 +484,7 @@ class Gen(object):
                 e = idx({'t': 'param', 'n': 'vec'}, anyidx())
                 e = e if r.random() < 0.5 else Bin(r.choice(['+', '*']), e, intv())
                 return assign_new('int', 'pv', e)
-            hs = [V(n) for n, _ in la] + ([{'t': 'self'}] if self.home in ('op', 'derived', 'state') else [])
+            hs = [V(n) for n, _ in la] + ([{'t': 'self'}] if self.home in SELF_HOMES else [])
             h = r.choice(hs)
             out = [Assign(idx(Field(h, 'Items'), anyidx()), intv())]
             if r.random() < 0.7:
@@ -652,7 +655,7 @@ class Gen(object):
             data = [{'n': n, 'e': self.maybe_paren(self.expr(ty, self.maxdepth - 1))} for n, ty in items]
             return {'id': label, 'poly': False, 'meaning': meaning, 'hasdata': bool(data) or r.random() < 0.5, 'data': data}
         targets = [(V(n), c) for n, c in self.live_insts() if c in self.INST_EVENTS]
-        if self.home in ('op', 'derived', 'state'):
+        if self.home in SELF_HOMES:
             targets.append(({'t': 'self'}, 'A'))
         evs = self.vars_of('event')
         kinds = ['gen_creator', 'gen_class', 'create_creator', 'create_class'] + (['gen_inst', 'gen_inst', 'create_inst'] if targets else []) \
